@@ -845,6 +845,11 @@ def history_cases(ctx: fw.Ctx, sc: dict, w: cw.World) -> list[fw.Case]:
                              cq.cpair(c_reasons(r['reasons']), c_oz(r['when'])))) for r in snap['running'])
                     + f"; n_forever := {cq.clist(cq.cnat(idx[i]) for i in snap['forever'])}; "
                     + f"n_delays := Some {cq.clist(cq.cZ(d) for d in log[j]['delays'])} |}}")
+                if any(x['seq'] < b_['seq'] for x in trailing for b_ in sb):
+                    # a task ended (not as the answer to a wait of its own turn) between the match and pause phases of one
+                    # call: the model's LProc has no label point there; validated up to here only
+                    ctx.count('history', 'truncated: task ended between the phases of one process_spawning_cause')
+                    break
                 if any(not (l_.startswith('LKEnter') or l_.startswith('LKLeave')) for (l_, _) in deferred):
                     # the killer's stop_daemon ran interleaved with this call (same virtual instant): the atomic LProc of the
                     # model cannot replay that order; the history is validated up to here, the monitors still see all of it
